@@ -16,6 +16,7 @@ import PgProofs.GenEvo
 import PgProofs.GenEvoPop
 import PgProofs.GenDedupEvo
 import PgProofs.GenEvoGen
+import PgProofs.GenEvoChunk
 namespace Pg.C15
 
 /-- Generated obligation: the current source has the repaired shape of `Deduping.recover/_replay`
@@ -756,5 +757,71 @@ theorem C15_every_crash_point (env : Env) (hq : env.q = currentQuirks) (a : Algo
 example : Supported (.deduping (.random 3 true) 0 1 4 false) := .dedupBase _ _ _ _ _ (Or.inr ⟨3, true, rfl⟩)
 example : Supported (.evolution .sweeping none) := .evoBase _ _ (Or.inl rfl)
 example : (f35Env currentQuirks).q = currentQuirks := rfl
+
+/-! ### Chunked recovery of Evolution: positive theorem under the complement of F166's condition -/
+
+/-- Evolution (repaired source; Sweeping / Random initialiser; ANY reproduction and population update,
+also updates that are not equivalent to one batch application), from ANY evolution state: if the
+chunked history is well labelled (`EntryOk`, as every persisted history is — `live_evolution`) and
+`chunksOrdered` holds — for every two `recover()` calls, no proposal of the later call was fed back
+before a proposal of the earlier call — then recovering chunk by chunk equals recovering the whole
+history in one call: counters, population, generation counter, init-phase flag, initialiser. -/
+theorem C15_recover_chunks_evolution (env : Env) (hq : env.q = Quirks.patched) (init : Algo) (hb : IsBase init)
+    (sz : Option Nat) (h : Hist) (hs : List Hist) (hok : ∀ e ∈ (h :: hs).flatten, EntryOk e)
+    (hord : chunksOrdered (h :: hs) = true)
+    (np nf : Nat) (si : St) (ini : Bool) (g : Nat) (pop pend : List Item) :
+    recoverChunks env (.evolution init sz) (.evolution np nf si ini g pop pend) (h :: hs)
+      = recover env (.evolution init sz) (.evolution np nf si ini g pop pend) (h :: hs).flatten := by
+  rw [List.flatten_cons] at hok ⊢
+  exact recoverChunks_evolution env hq init hb sz hs h np nf si ini g pop pend hok hord
+
+/-- …for the persisted history of ANY run, cut into any positive number of ordered chunks: the fresh
+instance reaches the single-call state, hence (`C15_recover`) the observable state of the live one. -/
+theorem C15_recover_chunked_evolution (env : Env) (hq : env.q = currentQuirks) (init : Algo) (hb : IsBase init)
+    (sz : Option Nat) (run : List Event) (c : Hist) (cs : List Hist)
+    (hc : (c :: cs).flatten = (runLive env (.evolution init sz) run).hist)
+    (hord : chunksOrdered (c :: cs) = true) :
+    (recoverChunks env (.evolution init sz) (setup (.evolution init sz)) (c :: cs)).map observe
+      = .ok (observe (runLive env (.evolution init sz) run).st) := by
+  have hq' : env.q = Quirks.patched := by rw [hq, C15_quirks_patched]
+  have hent := (live_evolution env init hb sz run).2
+  simp only [setup]
+  rw [C15_recover_chunks_evolution env hq' init hb sz c cs (by rw [hc]; exact hent) hord, hc]
+  exact C15_recover env hq (.evolution init sz) (.evoBase init sz hb) run
+
+/-- The F166 counterexample lies exactly outside the side condition; cutting the same history after
+the first proposal satisfies it (with out-of-order feedback *inside* the second chunk). -/
+theorem C15_chunksOrdered_examples :
+    chunksOrdered
+        [(runLive (f35Env .patched) f35Algo [.propose, .propose, .feedback 1 5, .feedback 0 3]).hist.take 1,
+         (runLive (f35Env .patched) f35Algo [.propose, .propose, .feedback 1 5, .feedback 0 3]).hist.drop 1] = false
+    ∧ chunksOrdered [(runLive (f35Env .patched) f35Algo f35Run).hist.take 1,
+                     (runLive (f35Env .patched) f35Algo f35Run).hist.drop 1] = true
+    ∧ chunksOrdered [(runLive (f35Env .patched) f35Algo f35Run).hist.take 2,
+                     (runLive (f35Env .patched) f35Algo f35Run).hist.drop 2] = false := by
+  decide
+
+/-! ### NSGA2: elites and population -/
+
+def popComponent : Except Err St → Option (List Item)
+  | .ok (.evolution _ _ _ _ _ pop _) => some pop
+  | _ => none
+
+/-- NSGA2 (`pg.evolution.nsga2`, Random initialiser of any size, ANY mutator): the model's population
+component encodes `(global_state.elites, population)` (PgModel/Nsga2.lean), the population update is
+`Nsga2.update` — non-dominated sorting, crowding distance, first `n`, stored as elites, population
+emptied — and for every run, at every crash point, with any feedback order, the recovered instance has
+the elites and the unprocessed population of the uninterrupted one.  (Instance of
+`C15_recover_evolution`, which holds for any update function; that `Nsga2.update` is what nsga2.py
+computes is tied by correspondence at every crash point and by the translator's pipeline facts.) -/
+theorem C15_recover_nsga2 (env : Env) (hq : env.q = Quirks.patched) (seed : Nat) (sd : Bool) (sz : Option Nat)
+    (facts : Nsga2.Facts) (n : Nat) (_hu : env.update = Nsga2.update facts n) (run : List Event) :
+    ∃ enc, popComponent (.ok (runLive env (.evolution (.random seed sd) sz) run).st) = some enc
+      ∧ popComponent (recover env (.evolution (.random seed sd) sz) (setup (.evolution (.random seed sd) sz))
+          (runLive env (.evolution (.random seed sd) sz) run).hist) = some enc
+      ∧ ∃ elites pop, Nsga2.decode enc = (elites, pop) := by
+  obtain ⟨np, nf, pop, si, ini, g, pend, si', ini', g', pend', h1, h2⟩ :=
+    C15_recover_evolution env hq (.random seed sd) (Or.inr ⟨seed, sd, rfl⟩) sz run
+  exact ⟨pop, by rw [h1]; rfl, by rw [h2]; rfl, _, _, rfl⟩
 
 end Pg.C15
